@@ -33,3 +33,18 @@ package jsonapi
 
 //@ interface Resource.Set
 //@ modifies $rh, all
+
+//@ uninterp C_len(`Int`, Collection) int
+//@ uninterp C_at(`Int`, Collection, int) Resource
+//@ uninterp C_has(`Int`, Collection, Resource) bool
+
+//@ interface Collection.Len
+//@ ensures obs: result == C_len($rh, self) && result >= 0
+
+//@ interface Collection.At
+//@ ensures in-range: 0 <= arg0 && arg0 < C_len($rh, self) ==> result == C_at($rh, self, arg0) && result != nil && C_has($rh, self, result)
+
+//@ interface Collection.GetType
+
+//@ interface Collection.Add
+//@ modifies $rh, all
